@@ -174,7 +174,7 @@ def run(chk):
     for m in callbacks:
         chk.ob("C02.G.callback-names-a-rule", f"{m.node.name}", m.node.name in rule_names, file=FILE, func=m.qual, line=m.node.lineno,
                fact={"callback": m.node.name}, expect="a rule of verilog.lark (an orphan callback is never invoked: lark returns a bare Tree)")
-    chk.floor("transformer callbacks", len(callbacks), 20)
+    chk.floor("transformer callbacks", len(callbacks), 12)
     need_cb = ["module", "input_declaration", "output_declaration", "module_instantiation", "assignment", "not_gate", "and_gate", "or_gate", "xor_gate", "xnor_gate", "ternary", "constant_zero", "constant_one"]
     have = {m.node.name for m in callbacks}
     for r in need_cb:
